@@ -2,17 +2,17 @@
 # verify_seed.sh <n> <demo command...>: confirm a sub-agent's seeded change in /tmp/seedwt<n>:
 # patch == worktree diff, builds, pinned suite passes, demo fails with the change and passes without.
 n=$1; shift
-WT=/tmp/seedwt$n; OUT=/tmp/seed-out/a$n
+WT=/tmp/seedwt$n; OUT=${SEED_OUT:-/tmp/seed-out/a$n}
 export GOPROXY=off GOSUMDB=off GOTOOLCHAIN=local
 git -C $WT checkout -q go.work.sum 2>/dev/null
 if diff <(git -C $WT diff) $OUT/patch.diff >/dev/null; then echo "patch==worktree diff: yes"; else echo "patch==worktree diff: NO"; fi
 echo "changed files: $(git -C $WT diff --stat | tail -1)"
 (cd $WT && go build ./...) && echo "build: ok" || echo "build: FAIL"
 /verif/run_baseline.sh $WT | tail -1
-( "$@" ) >/tmp/seed-out/a$n/demo_with.log 2>&1; echo "demo with change: exit=$?"
+( "$@" ) >$OUT/demo_with.log 2>&1; echo "demo with change: exit=$?"
 git -C $WT checkout -q go.work.sum 2>/dev/null
 git -C $WT stash -q
-( "$@" ) >/tmp/seed-out/a$n/demo_without.log 2>&1; echo "demo without change: exit=$?"
+( "$@" ) >$OUT/demo_without.log 2>&1; echo "demo without change: exit=$?"
 git -C $WT checkout -q go.work.sum 2>/dev/null
 git -C $WT stash pop -q
 git -C $WT status --short | head -5
